@@ -1,6 +1,6 @@
 ENGINES = [
     {'name': 'E-A', 'path': 'mc/ea.py', 'serves_properties': [], 'kind_free_text': 'declaration x input explorer: enumerated packet declarations rendered to real classes, all byte strings up to a length bound, reference interpreter as oracle'},
-    {'name': 'E-B', 'path': 'mc/props', 'serves_properties': ['C11'], 'kind_free_text': 'operation-history explorer: all histories up to a depth over a small alphabet on fresh real objects vs a reference model'},
+    {'name': 'E-B', 'path': 'mc/props', 'serves_properties': ['C11', 'C13', 'C15', 'C17'], 'kind_free_text': 'operation-history explorer: all histories up to a depth over a small alphabet on fresh real objects vs a reference model'},
     {'name': 'E-C', 'path': 'mc/sched.py, mc/fsx.py', 'serves_properties': [], 'kind_free_text': 'schedule / fault explorer: preemption-bounded thread schedules, file-system step interleavings and crash points'},
 ]
 
@@ -11,6 +11,25 @@ CHECKS = {
         'text': 'All histories of insert/append/extend (36 operations: positions 0..6, chunks of length 0..3) up to depth 3 (quick) / 4 (thorough) are executed on a fresh real Fragments; after every operation raise-iff-occupied, stored bytes, cursor, extent and tobytes() are compared with a dict-based model. Bounded exhaustive: no claim beyond depth/position/chunk bounds.',
         'note': 'Trusts the 60-line reference model in mc/props/c11.py; positions 0..6, chunk lengths 0..3; for empty chunks only the extent is compared (the statement leaves the rest open).',
     },
+}
+
+CHECKS['C05'] = {
+    'engine': 'E-A',
+    'technique': 'exhaustive enumeration of Int configurations x byte patterns / values on real classes vs positional-arithmetic reference',
+    'text': 'Every Int configuration (widths 1..9 quick, +16,17 thorough; signed/unsigned; 5 endianness spellings; 3 class defaults; alone or next to a same/opposite-order neighbour; generated and generic code) is compiled into a real class; decode is checked on all 2^(8n) patterns for n<=2 and the lane-exhaustive set above, encode on all/boundary values plus values that must raise PacketError.',
+    'note': 'Reference = 20 lines of positional arithmetic; local byte order taken from sys.byteorder; n>2 is lane-exhaustive, not 2^(8n).',
+}
+CHECKS['C07'] = {
+    'engine': 'E-A',
+    'technique': 'exhaustive enumeration of bit-width compositions x byte patterns / per-field values on real classes vs bit-string slicing reference',
+    'text': 'All 128 compositions of 8 bits, all 32768 (quick: the 576 with <=4 parts) compositions of 16 bits and a boundary family for 24..48 bits become real classes; unpack on all patterns (8 bits) or the lane pattern set, pack on per-field values incl. 2^w, negative, with all-zero/all-one neighbours; every non-multiple-of-8 total up to 17 must be rejected at class definition.',
+    'note': 'Reference = binary string slicing; >16-bit groups use a pattern family, not all patterns.',
+}
+CHECKS['C09'] = {
+    'engine': 'E-A',
+    'technique': 'exhaustive enumeration of expression trees up to depth 2 x operand values, real deferred machinery vs eager Python evaluation',
+    'text': 'All trees of depth <=2 over the 18 binary operators in every operand order, unary operators, indexing/slicing/len and the n-ary selectors (all four call forms) are built through the real operator overloads, compiled by compile_expr_into_callable and evaluated on all operand values a,b in -2..3 (and sequence/bytes operands); value, type and exception class must equal eager evaluation. Depth<=1 and selected depth-2 trees also go through Data size / repeated count / when in real classes.',
+    'note': 'Operand domain -2..3; nesting depth 2 (quick: depth 2 nested on one side).',
 }
 
 NOT_APPLICABLE = {}
